@@ -158,6 +158,27 @@ def zero_tolerance_specs(ctx):
     return specs
 
 
+def add_fault_runs(ctx):
+    """Deterministic runs in which ONE posterior update of the surrogate fails (LinAlgError while a just-evaluated point is added to the GP),
+    at each of the first 24 such updates in turn.  A run that does not survive that is not this property's business; a run that DOES return
+    a result must still return the best point it evaluated - including the point whose addition failed."""
+    from .. import gen, tracer
+    rng = ctx.sub_rng("c04addfault")
+    jobs = []
+    for _ in range(2 if ctx.quick else 8):
+        sp = gen.make_spec(rng, D=2, mode="det", geom="box", opt_loc="inside", cons=None, target="quad")
+        sp["x0_unit"] = [0.9 if c < 0 else -0.9 for c in sp["c_unit"]]
+        sp["options"] = {"n_search": 32, "max_fun_evals": rng.choice([25, 32])}
+        for k in range(24):
+            jobs.append((sp, {"add_faults": [k], "want": ("call", "ctl", "hist")}))
+    tr = tracer.cached("c04addfault", ctx.seed, ctx.tier, lambda: jobs)
+    bad = [t for t in tr if "tracer_error" in t]
+    if bad:
+        raise RuntimeError("tracer failure: " + bad[0]["tracer_error"])
+    ctx._pool = list(runlevel.get_pool(ctx)) + list(tr)
+    return sum(1 for t in tr if t["error"] is None), len(tr)
+
+
 def multi_improve_specs(ctx, n):
     """Deterministic runs that start far from the optimum, poll completely (complete_poll) and stop after very few iterations: several
     points of one poll improve on the incumbent, in any order, and the run returns right afterwards - the returned point must be the
@@ -231,7 +252,10 @@ def run(ctx):
     runlevel.with_extra(ctx, "c04offset", lambda: large_offset_specs(ctx, 5 if ctx.quick else 40))
     runlevel.with_extra(ctx, "c04dtype", lambda: typed_value_specs(ctx))
     runlevel.with_extra(ctx, "c04tol", lambda: zero_tolerance_specs(ctx))
+    n_surv, n_addf = add_fault_runs(ctx)
     stats, samples = run_checks(ctx, rep)
+    stats["runs_with_a_failed_posterior_update"] = n_addf
+    stats["of_which_returned_a_result"] = n_surv
     dstats = runlevel.det_replay(ctx, rep)
     rep.coverage = {
         "evaluations": stats["events"] + dstats["iterations"], "distinct_nontrivial": stats["moves"], "composed_model": dstats,
